@@ -42,6 +42,12 @@ AYf == [simple |-> {Eff, Y(VarA), PullIt, YFromIt} \cup YFs,
 \* delegation family without the recursive delegate: bounded delegation depth (C17 loop cases)
 YFsL == {YF(g, arg) : g \in 2..3, arg \in {[k |-> "lit", v |-> 1], VarA}}
 AYfL == [AYf EXCEPT !.simple = {Eff, IncA, Y(VarA)} \cup YFsL, !.posts = {None} \cup YFsL]
+\* transformer generators (C06): a generator that ranges over the local iterator `it` (instance 2) and yields
+\* from inside the loop, also inside a switch clause, with break / continue / return and pulls by hand
+AXf == [simple |-> {Eff, Y([k |-> "var", n |-> "k"]), PullIt},
+        inits |-> {None}, posts |-> {None}, conds |-> {T0}, ifinits |-> {None},
+        kinds |-> {"if", "switch", "range"}, jumps |-> {"break", "continue", "return"},
+        ranges |-> {[k |-> "range", id |-> 0, kind |-> "iter", xf |-> "var", kf |-> kf, vf |-> "none", wrap |-> "none", body |-> <<>>] : kf \in {"def", "none"}}]
 APanic == [ACtl EXCEPT !.simple = @ \cup {[k |-> "panic"], Y([k |-> "b1", e |-> [k |-> "lit", v |-> 7]])}]
 \* the control-flow family with every switch form: default first / no default, type switch, tag-less switch
 \* effects everywhere, effectful yield expressions (C02: the interleaving is the observation)
@@ -125,7 +131,7 @@ ARScope == [ARange EXCEPT !.simple = {Y(VarK), Y(VarV)},
                           !.ranges = {RangeHdr("slice", "var", f[1], f[2]) :
                                         f \in {<<"asg", "asg">>, <<"blank", "asg">>, <<"asg", "none">>, <<"def", "def">>, <<"blank", "def">>}}]
 ARangeX == [ARange EXCEPT !.simple = @ \cup {Mut("nset", 0), Mut("strset", 0), Mut("sset", 0), Mut("aset", 0)}]
-A == CASE Family = "range" -> ARange [] Family = "rscope" -> ARScope [] Family = "rangex" -> ARangeX [] Family = "ctl" -> ACtl [] Family = "scope" -> AScope [] Family = "yf" -> AYf [] Family = "yfl" -> AYfL [] Family = "panic" -> APanic [] Family = "ctlx" -> ACtlX [] Family = "eff" -> AEff [] Family = "expr" -> AExpr [] Family = "jump" -> AJump [] Family = "opt" -> AOpt [] Family = "by" -> ABy [] Family = "optx" -> AOptX [] Family = "byx" -> AByX [] Family = "unsup" -> AUnsup [] Family = "box" -> ABox [] Family = "lit" -> ALit
+A == CASE Family = "range" -> ARange [] Family = "rscope" -> ARScope [] Family = "rangex" -> ARangeX [] Family = "ctl" -> ACtl [] Family = "scope" -> AScope [] Family = "yf" -> AYf [] Family = "xf" -> AXf [] Family = "yfl" -> AYfL [] Family = "panic" -> APanic [] Family = "ctlx" -> ACtlX [] Family = "eff" -> AEff [] Family = "expr" -> AExpr [] Family = "jump" -> AJump [] Family = "opt" -> AOpt [] Family = "by" -> ABy [] Family = "optx" -> AOptX [] Family = "byx" -> AByX [] Family = "unsup" -> AUnsup [] Family = "box" -> ABox [] Family = "lit" -> ALit
 
 \* Go scoping: `a := ...` at most once per block and never in the function's top block
 \* (a is a parameter there: "no new variables on left side of :=")
@@ -139,7 +145,7 @@ ScopeOK(b, max) == NDef(b) <= max /\ \A j \in 1..Len(b) : SubOK(b[j])
 RECURSIVE HasK(_, _)
 HasKS(s, kk) == s.k = kk \/ CASE s.k = "if" -> HasK(s.a, kk) \/ HasK(s.b, kk)
                               [] s.k = "switch" -> \E j \in 1..Len(s.cases) : HasK(s.cases[j].body, kk)
-                              [] s.k \in {"block", "for"} -> HasK(s.body, kk)
+                              [] s.k \in {"block", "for", "range"} -> HasK(s.body, kk)
                               [] OTHER -> FALSE
 HasK(b, kk) == \E j \in 1..Len(b) : HasKS(b[j], kk)
 RECURSIVE HasBoom(_), HasBoomS(_)
@@ -153,7 +159,7 @@ HasBoom(b) == \E j \in 1..Len(b) : HasBoomS(b[j])
 \* a function without a Yield is not a generator for the tool (it would run eagerly: C13's business)
 IsRangeFam == Family \in {"range", "rangex", "rscope"}
 Member(p) == /\ (IF Family \in {"by", "byx"} THEN ~HasY(p) /\ HasK(p, "effx") ELSE HasY(p)) /\ (Family = "scope" => ScopeOK(p, 0)) /\ (Family = "panic" => (HasK(p, "panic") \/ HasBoom(p)))
-             /\ (IsRangeFam => HasK(p, "range"))
+             /\ (IsRangeFam \/ Family = "xf" => HasK(p, "range"))
              /\ (Family = "unsup" => CountU(p) = 1)
 \* range family: every program ends with an observation of the function-level kk, vv and a final yield
 \* (so range loops whose bodies do not yield are still inside a generator); a range loop without a
@@ -188,7 +194,7 @@ vars == <<prog, tape0, plen, w, wb, calls, obs, obsB>>
 
 Start(p, tape, flags) ==
   LET w1 == Spawn(MW0(<<p, D2, D3, D4>>, tape, Budget, flags), 1, 0, 2).w IN
-  IF Family = "yf" THEN Spawn(w1, 2, 3, 2).w ELSE w1      \* yf: instance 2 is the local iterator  it := D2(r, 3, b)
+  IF Family \in {"yf", "xf"} THEN Spawn(w1, 2, 3, 2).w ELSE w1      \* yf: instance 2 is the local iterator  it := D2(r, 3, b)
 Init == /\ \/ \E raw \in Small : \E fin \in Finish(raw) : prog = Label(fin)
            \/ (Lazy /\ \E raw \in {0} : FALSE)   \* (keeps TLC's Init shape uniform)
            \/ (Lazy /\ LET B(m, ctx) == Tab[m + 1].B[ctx] IN
